@@ -96,6 +96,39 @@ func (s *session) oracleC07(before, after *snap, b *mblock, cls string) {
 				if strings.Join(want, ",") != strings.Join(got, ",") {
 					s.fail("reoffered", fmt.Sprintf("transactions only on the abandoned branch: [%s]; offered back to the pool: [%s]", strings.Join(want, ","), strings.Join(got, ",")), "")
 				}
+				// (c') the real transaction pool was fed the chain service's MemPoolDel / MemPoolPut messages in the order they
+				// were sent: every transaction offered back that can still execute on the new branch (its nonce is above its
+				// sender's in the new best state) must now be in the pool, none that cannot
+				if s.n.mp != nil && bytes.Equal(after.root, after.best.GetHeader().GetBlocksRootHash()) {
+					sdb := s.n.cs.SDB().OpenNewStateDB(after.root)
+					for _, ob := range before.path {
+						if after.onMain[string(ob.BlockHash())] != nil {
+							break
+						}
+						for _, t := range ob.GetBody().GetTxs() {
+							if !oldOnly[tk(t.Hash)] {
+								continue
+							}
+							acc, err := state.GetAccountState(t.GetBody().GetAccount(), sdb)
+							if err != nil {
+								continue
+							}
+							alive := t.GetBody().GetNonce() > acc.Nonce()
+							in := s.n.mp.VerifExist(t.Hash) != nil
+							switch {
+							case alive && in:
+								s.e.run.Count("pool:reoffered-transaction-accepted")
+							case alive && !in:
+								s.fail("reoffered-pool", fmt.Sprintf("transaction %s (nonce %d, sender nonce %d on the new branch) was only on the abandoned branch and can still execute, but the transaction pool does not hold it (pool's answer to MemPoolPut: %v)",
+									tk(t.Hash), t.GetBody().GetNonce(), acc.Nonce(), s.n.putErr[tk(t.Hash)]), "")
+							case !alive && in:
+								s.fail("reoffered-pool", fmt.Sprintf("transaction %s (nonce %d <= sender nonce %d on the new branch) can never execute again but sits in the transaction pool", tk(t.Hash), t.GetBody().GetNonce(), acc.Nonce()), "")
+							default:
+								s.e.run.Count("pool:reoffered-transaction-obsolete-refused")
+							}
+						}
+					}
+				}
 				// (d) the state is exactly the execution of the new branch
 				s.referenceCheck("after the reorganisation")
 			}
